@@ -55,6 +55,8 @@ def make_desc(rng, migrations=None, edge_md=True, unique_node_md=False, max_node
                 if t not in off:
                     off[t] = rng.choice([0, 0, 0.5])
                 m[4] = t + off[t]
+    if rng.random() < 0.6:
+        raise_times(d, rng)
     if migrations is None:
         migrations = rng.random() < 0.5
     migs = []
@@ -70,6 +72,30 @@ def make_desc(rng, migrations=None, edge_md=True, unique_node_md=False, max_node
         migs.sort(key=lambda m: m[5])
     d["migrations"] = migs
     return d
+
+
+def raise_times(d, rng):
+    """Known mutation times anywhere on the branch: a mutation without a parent mutation may
+    be as old as (just below) the parent node of its node at the site.  Mutations of a site
+    are re-sorted by decreasing time (stable) and parent references follow."""
+    times = [r[1] for r in d["nodes"]]
+    muts = d["mutations"]
+    for m in muts:
+        if m[4] is None or m[3] != NULL or rng.random() < 0.4:
+            continue
+        pos = d["sites"][m[0]][0]
+        par = next((e[2] for e in d["edges"] if e[3] == m[1] and e[0] <= pos < e[1]), None)
+        top = times[par] - 0.5 if par is not None else m[4] + rng.choice([0.5, 1, 2.5])
+        if top > m[4]:
+            steps = int(round((top - m[4]) * 2))
+            m[4] = m[4] + rng.randrange(0, steps + 1) / 2
+    order = sorted(range(len(muts)), key=lambda j: (muts[j][0], -(muts[j][4] if muts[j][4] is not None else 0)))
+    if order != list(range(len(muts))):
+        new_id = {old: new for new, old in enumerate(order)}
+        d["mutations"] = [list(muts[j]) for j in order]
+        for m in d["mutations"]:
+            if m[3] != NULL:
+                m[3] = new_id[m[3]]
 
 
 def clip_desc(d, a, b):
@@ -414,7 +440,7 @@ class Intervals(Family):
     timeout = 30.0
 
     def generate(self, rng, tier):
-        nd = 150 if tier == "quick" else 900
+        nd = 120 if tier == "quick" else 900
         per = 10 if tier == "quick" else 16
         # exhaustive interval lists on a few small descriptions
         for k in range(3 if tier == "quick" else 12):
@@ -679,7 +705,9 @@ class Trim(Family):
             if rng.random() < 0.8 and L >= 2:
                 a = rng.randrange(0, L)
                 b = rng.randrange(a + 1, L + 1)
-                d = clip_desc(d, a, b)
+                d2 = clip_desc(d, a, b)
+                if d2["edges"] or rng.random() < 0.1:
+                    d = d2
             if d["migrations"] and d["edges"] and rng.random() < 0.6:
                 lo = min(e[0] for e in d["edges"])
                 hi = max(e[1] for e in d["edges"])
@@ -927,7 +955,7 @@ class TimeCut(Family):
     workers = 8
 
     def generate(self, rng, tier):
-        nd = 110 if tier == "quick" else 1200
+        nd = 90 if tier == "quick" else 1200
         for k in range(nd):
             mig = rng.random() < 0.25
             d = make_desc(rng, migrations=mig)
@@ -1175,16 +1203,98 @@ def mut_filter_expect(ms, keep):
 # extend_haplotypes: spec level only
 # ---------------------------------------------------------------------------
 
+def extend_pattern(rng):
+    """Structured input for extend_haplotypes: a random tree with unary nodes on one side of a
+    breakpoint and the same tree with some unary nodes by-passed on the other side, sites on
+    both sides, mutations with times anywhere on their branch (so that extension makes
+    mutations slide onto the inserted node)."""
+    ns = rng.randrange(2, 5)
+    ni = rng.randrange(2, 6)
+    n = ns + ni
+    times = [0] * ns + sorted(rng.randrange(1, 6) for _ in range(ni))
+    for i in range(ns + 1, n):                      # strictly increasing internal times
+        if times[i] <= times[i - 1]:
+            times[i] = times[i - 1] + 1
+    nodes = [[1 if i < ns or rng.random() < 0.08 else 0, times[i], NULL, NULL, bytes([i]).hex()] for i in range(n)]
+    parent = [NULL] * n
+    for u in range(n - 1):
+        older = [v for v in range(ns, n) if times[v] > times[u]]
+        if older and rng.random() < 0.9:
+            parent[u] = older[min(int(rng.expovariate(0.9)), len(older) - 1)]
+    L = rng.randrange(2, 5)
+    bps = sorted(rng.sample(range(1, L), rng.randrange(1, min(L, 3))))
+    segs = list(zip([0] + bps, bps + [L]))
+    forests = []
+    for k in range(len(segs)):
+        par = list(parent)
+        for _ in range(rng.randrange(0, 3)):        # by-pass a node on this segment
+            cand = [v for v in range(ns, n) if par[v] != NULL and any(par[c] == v for c in range(n))]
+            if not cand:
+                break
+            v = rng.choice(cand)
+            for c in range(n):
+                if par[c] == v:
+                    par[c] = par[v]
+            par[v] = NULL
+        forests.append(par)
+    edges = []
+    for u in range(n):
+        k = 0
+        while k < len(segs):
+            p = forests[k][u]
+            if p == NULL:
+                k += 1
+                continue
+            j = k
+            while j + 1 < len(segs) and forests[j + 1][u] == p:
+                j += 1
+            edges.append([segs[k][0], segs[j][1], p, u, ""])
+            k = j + 1
+    rng.shuffle(edges)
+    cand = sorted(rng.sample(range(2 * L), min(2 * L, rng.randrange(1, 5))))
+    sites = [[p2 / 2 if p2 % 2 else p2 // 2, rng.choice("ACGT"), gen_ts.hx(rng)] for p2 in cand]
+    muts = []
+    for si, (pos, _a, _m) in enumerate(sites):
+        k = max(i for i, (a, b) in enumerate(segs) if a <= pos)
+        par = forests[k]
+        chosen = sorted(set(rng.randrange(n) for _ in range(rng.randrange(0, 4))), key=lambda u: -times[u])
+        rows = []
+        for u in chosen:
+            if par[u] == NULL and not any(par[c] == u for c in range(n)) and rng.random() < 0.8:
+                continue                            # mostly avoid nodes absent from this tree (F15 class)
+            hi = times[par[u]] - 0.5 if par[u] != NULL else times[u] + 1
+            t = times[u] + rng.randrange(0, int(round((hi - times[u]) * 2)) + 1) / 2
+            rows.append([si, u, rng.choice("ACGT"), NULL, t, gen_ts.hx(rng)])
+        rows.sort(key=lambda m: -m[4])
+        base = len(muts)
+        for idx, m in enumerate(rows):              # parent = nearest mutation above on the path
+            v, best = m[1], NULL
+            hops = 0
+            while v != NULL and hops < 100:
+                ab = [j for j in range(idx) if rows[j][1] == v and (v != m[1] or True)]
+                if ab:
+                    best = base + ab[-1]
+                    break
+                v = par[v]
+                hops += 1
+            m[3] = best
+        muts += rows
+    return {"L": L, "scale": rng.choice([1, 0.5, 2.5]), "nodes": nodes, "edges": edges, "sites": sites,
+            "mutations": muts, "individuals": [], "populations": [], "migrations": []}
+
+
 class Extend(Family):
     name = "extend"
     workers = 8
 
     def generate(self, rng, tier):
-        nd = 1500 if tier == "quick" else 20000
+        nd = 1000 if tier == "quick" else 12000
         for k in range(nd):
             d = make_desc(rng, migrations=(rng.random() < 0.05), edge_md=False,
                           unknown_times=(rng.random() < 0.1), max_nodes=8, max_L=6)
-            yield {"op": "extend_haplotypes", "max_iter": rng.choice([1, 2, 10, 10, 10, 0, -1]), "desc": d}
+            yield {"op": "extend_haplotypes", "max_iter": rng.choice([1, 2, 10, 10, 10, 10, 10, 0, -1]), "desc": d}
+        for k in range(nd):
+            yield {"op": "extend_haplotypes", "max_iter": rng.choice([1, 2, 10, 10, 10]), "desc": extend_pattern(rng)}
 
     def observe(self, case):
         d = case["desc"]
